@@ -70,7 +70,7 @@ template <typename CharT, typename SizeT>
 {
     auto* ptr          = dest + strlen<CharT, SizeT>(dest);
     SizeT localCounter = 0;
-    while (*src != CharT(0) && localCounter != count) {
+    while (localCounter != count && *src != CharT(0)) {
         *ptr++ = *src++;
         ++localCounter;
     }
